@@ -24,9 +24,9 @@ T = {
  "C07": ("differential execution of every dispatch-table kernel against its C reference (table generated from the rtcd sources), plus exact-size ASan runs", "3/C07",
          "gen/kernels.py parses the SET_* lines and prototypes of the tree under test (781 pointers, 768 with SIMD variants); for each signature class a domain-aware generator produces argument sets (every block size, odd strides, 8/10 bit, zero/max/alternating/ramp/random/planted extremes); the C reference and every variant the host supports run on identical copies and outputs, return values and guard bands are compared byte for byte; the same cases run on exact-size heap blocks under ASan. 750 kernels covered (97.7%), uncovered ones are listed by name in the evidence.",
          "Argument domains come from the C references' asserts, the repo's unit tests and call sites; narrowed sub-domains are listed in evidence assumptions. AVX-512 variants only in the thorough tier (ENABLE_AVX512 build)."),
- "C08": ("differential decode: SVT decoder (both pipelines) vs libaom and dav1d, sample-exact, on streams produced on the fly", "3/C08",
-         "Forced-feature and random SVT streams (film grain, 10-bit, tiles, screen content, overlays, LR on a 854x480 stream) are decoded by the SVT decoder with is_16bit_pipeline 0 and 1 and compared picture by picture with libaom and dav1d; exact-size input buffers under ASan.",
-         "Only SVT-produced streams (no independent encoder: libaom's encoder through dlopen was not built); streams the decoder reports as unsupported are counted, not failed."),
+ "C08": ("differential decode: SVT decoder (both pipelines) vs libaom and dav1d, sample-exact, on SVT streams and on streams from an independent encoder (libaom via ctypes)", "3/C08",
+         "Forced-feature and random SVT streams (film grain incl. inherited parameters, 10-bit, tiles, screen content, overlays, LR on a 854x480 stream) and 30 (thorough: ~95) libaom-encoded streams exercising tools the SVT encoder never emits (tile groups, non-uniform tiles, 128x128 superblocks, error resilience, S-frames, real superres, segmentation / delta-q / delta-lf, quantisation matrices, lossless, film-grain test vectors, intrabc, global motion) are decoded by the SVT decoder with is_16bit_pipeline 0 and 1 and compared picture by picture with libaom and dav1d; exact-size input buffers under ASan.",
+         "The libaom encoder is driven through ctypes with hand-written struct layouts that are self-checked (lib/vf/av1parse_selftest.py); streams outside the decoder's profile (4:0:0, 4:4:4, 12-bit) must be reported as unsupported and are counted."),
  "C09": ("multi-thread vs single-thread decode under schedule perturbation; ASan; TSan with happens-before annotations (hook H6) modelling the intended volatile hand-off", "3/C09",
          "Each stream is decoded with 2,3,4,8 (thorough up to 16) threads under perturbed schedules and must equal the single-thread pictures; teardown must return; ASan must be silent; TSan runs with per-address release/acquire annotations at the 77 hand-off sites so that only accesses the intended protocol does not order are reported; distinct hand-off interleavings are counted from the trace.",
          "'Any interleaving' is sampled (80 distinct hand-off orders in the quick tier). The hand-off itself being a C11 race is one known finding."),
